@@ -81,6 +81,12 @@ def trivial(c):
 def build(rng, ty, op, sizes, den):
     nx, ny, nz = sizes.get("X"), sizes.get("Y"), sizes.get("Z")
     f = lambda cs: sum((flat_sx(c) for c in cs), [])
+    if op in ("proj", "umax", "fuse") and rng.chance(1, 3):
+        # a value with a tiny projected probability: wherever the renaming puts it, the result must only be renamed
+        w = G.tiny_projection_opinion(rng, ty, nx)
+        if op == "fuse":
+            return flat_op(w) + flat_op(([0.0] * nx, 1.0, w[2]) if rng.chance(1, 2) else G.grid_opinion(rng, nx, den))
+        return flat_op(w)
     if op in ("proj", "umax"):
         return flat_op(G.grid_opinion(rng, nx, den))
     if op == "disc":
